@@ -161,7 +161,7 @@ def run_property(prop, tier="quick", explain=None):
 
     # selftest hook (thorough only)
     selftest = None
-    if tier == "thorough":
+    if tier == "thorough" and not os.environ.get("VERIF_NO_SELFTEST"):
         try:
             import selftest as st
             selftest = st.run_for_property(prop)
